@@ -172,6 +172,33 @@ pub fn gen(out: &mut Out, thorough: bool) {
         l(format!("ord cmp3 {} {} {}", enc(a), enc(b), enc(c)), out);
     } } }
     out.exhaustive.push(format!("all pairs (bare and inside an array) of {} number spellings with equal or near-equal numeric value (zeros, 1/1.0/1e0, 10/1E1, integers around 2^53 and 2^64 with decimals, over/underflowing exponents), all triples of the first {} and of the 2^53 group", nums.len(), ntri));
+    // keys and strings of EVERY byte length 1..=40 that share all but their last character, the last
+    // characters spread over the bit positions of a byte (a packed / chunked / abbreviated comparison
+    // is decided at one length and one bit): all pairs as keys and as strings, all triples as keys
+    {
+        let lasts = ["a", "q", "b", "p", "d", "t", "0", " ", "\u{7f}", "é", "ù"];
+        let mut n = 0u64;
+        for len in 1..=40usize {
+            let pre: String = "total_bytes_sent/0123456789abcdefghijklmnopqrstuvwxyz".chars().take(len - 1).collect();
+            let key = |t: &str| format!("{{k{};n}}", cps_inner(&format!("{}{}", pre, t)));
+            let key2 = |t: &str| format!("{{k{};#31;k7a;t}}", cps_inner(&format!("{}{}", pre, t)));
+            let st = |t: &str| format!("s{};", cps_inner(&format!("{}{}", pre, t)));
+            for a in lasts { for b in lasts {
+                l(format!("ord cmp {} {}", key(a), key(b)), out);
+                l(format!("ord cmp {} {}", key(a), key2(b)), out);
+                l(format!("ord cmp {} {}", st(a), st(b)), out);
+                n += 3;
+            } }
+            let tri = if thorough { lasts.len() } else { 7 };
+            for a in lasts.iter().take(tri) { for b in lasts.iter().take(tri) { for c in lasts.iter().take(tri) {
+                if (len > 24 && !thorough) && (len % 2 == 1) { continue; }
+                l(format!("ord cmp3 {} {} {}", key(a), key(b), key2(c)), out);
+                n += 1;
+            } } }
+        }
+        out.count_n("same_prefix_last_char_families", n);
+        out.exhaustive.push(format!("for every key/string byte length 1..=40: all pairs of {} last characters behind a common prefix (as keys, as strings), all triples of the first 7 as keys", lasts.len()));
+    }
     // generated values with near-copies
     let n = if thorough { 400000 } else { 6000 };
     for _ in 0..n {
